@@ -5,12 +5,12 @@ MODULE = {
     "file": "ural/infer_redirection.py", "auto": True, "bound": BOUND,
     "obj_attrs": dict(URL_ATTRS),
     "library": dict(RE_LIB, **{
-        "Obj.split": {"params": ["string", "maxsplit"], "receiver": "pattern", "types": {"pattern": "Obj", "string": "Str", "maxsplit": "Int"}, "returns": "Seq[Str]",
-                      "ensures": ["len(result) >= 1", "len(result) <= 2 * maxsplit + 1"]},
+        # match.end(): a position inside the searched string
+        "Obj.end": {"params": [], "receiver": "m", "types": {"m": "Obj"}, "returns": "Int", "ensures": ["result >= 0"]},
     }),
     "functions": {
         "infer_one_redirection": {
-            "types": {"url": "Str", "redirection_split": "Seq[Str]", "target": "Opt[Str]", "obvious_redirect_match": "Opt[Obj]",
+            "types": {"url": "Str", "redirection_match": "Opt[Obj]", "target": "Opt[Str]", "obvious_redirect_match": "Opt[Obj]", "searched": "Str",
                       "potential_target": "Str", "lent": "Bool", "base": "Str"},
             "returns": "Str",
             # raises nothing: group(1) / group(2) are mandatory groups of the real pattern (sre tree), the urljoin ValueError is caught
